@@ -11,348 +11,11 @@ import (
 	"flag"
 	"fmt"
 	"math/big"
-	"math/rand"
 	"os"
-	"sort"
 
-	"github.com/ethereum/go-ethereum/common"
-	"github.com/ethereum/go-ethereum/core"
-	"github.com/ethereum/go-ethereum/core/state"
-	"github.com/ethereum/go-ethereum/core/types"
-	"github.com/ethereum/go-ethereum/core/vm"
-	"github.com/holiman/uint256"
 	me "verif/harness/minievm"
 	tl "verif/harness/tracelib"
 )
-
-// Tx is the transaction + block context of one case (all numbers < 2^31).
-type Tx struct {
-	Fork      string  `json:"fork"`
-	From      int64   `json:"from"`
-	To        int64   `json:"to"`
-	IsCreate  bool    `json:"isCreate"`
-	Value     uint64  `json:"value"`
-	Gas       uint64  `json:"gas"`
-	Price     uint64  `json:"price"`
-	FeeCap    uint64  `json:"feeCap"`
-	Tip       uint64  `json:"tip"`
-	BaseFee   uint64  `json:"baseFee"`
-	Nonce     uint64  `json:"nonce"`
-	Data      []int   `json:"data"`
-	DataW     []int64 `json:"dataw"`
-	AlAddrs   []int64 `json:"alAddrs"`
-	AlKeys    [][]int64 `json:"alKeys"`
-	Coinbase  int64   `json:"coinbase"`
-	BlockGas  uint64  `json:"blockGas"`
-	SkipNonce bool    `json:"skipNonce"`
-}
-
-type Acct struct {
-	Addr  int64     `json:"addr"`
-	Bal   uint64    `json:"bal"`
-	Nonce uint64    `json:"nonce"`
-	Code  []int     `json:"code"`
-	Stor  [][]int64 `json:"stor"`
-}
-
-func acctsOf(w *me.World) []Acct {
-	out := []Acct{}
-	for _, a := range w.Accounts {
-		st := [][]int64{}
-		for _, k := range a.SortedSlots() {
-			if a.Storage[k] != 0 {
-				st = append(st, []int64{int64(k), int64(a.Storage[k])})
-			}
-		}
-		out = append(out, Acct{int64(a.Addr), a.Balance, a.Nonce, me.Bytes(a.Code), st})
-	}
-	return out
-}
-
-type result struct {
-	valid   bool
-	ok      bool
-	gasUsed uint64
-	st      *state.StateDB
-	tr      *me.Tracer
-}
-
-// execute runs one transaction on a fresh state; traced selects full event recording.
-func execute(w *me.World, tx *Tx, data []byte, traced bool) *result {
-	cfg := me.ChainConfig(tx.Fork)
-	header := me.Header(tx.BlockGas, tx.BaseFee)
-	rules := cfg.Rules(header.Number, true, header.Time)
-	st := w.NewState(rules)
-	tr := me.NewTracer()
-	tr.Light = !traced
-	bctx := core.NewEVMBlockContext(header, me.NewChain(cfg), nil)
-	evm := vm.NewEVM(bctx, st, cfg, vm.Config{Tracer: tr.Hooks()})
-	defer evm.Release()
-	msg := &core.Message{
-		From:            me.Addr(uint64(tx.From)),
-		Nonce:           tx.Nonce,
-		Value:           uint256.NewInt(tx.Value),
-		GasLimit:        tx.Gas,
-		GasPrice:        uint256.NewInt(tx.Price),
-		GasFeeCap:       uint256.NewInt(tx.FeeCap),
-		GasTipCap:       uint256.NewInt(tx.Tip),
-		Data:            data,
-		SkipNonceChecks: tx.SkipNonce,
-	}
-	if !tx.IsCreate {
-		a := me.Addr(uint64(tx.To))
-		msg.To = &a
-	}
-	for i, a := range tx.AlAddrs {
-		tup := types.AccessTuple{Address: me.Addr(uint64(a))}
-		for _, k := range tx.AlKeys {
-			if k[0] == a && firstIndex(tx.AlAddrs, a) == i {
-				tup.StorageKeys = append(tup.StorageKeys, me.U2H(uint64(k[1])))
-			}
-		}
-		msg.AccessList = append(msg.AccessList, tup)
-	}
-	st.SetTxContext(common.Hash{1}, 0, 0)
-	gp := core.NewGasPool(tx.BlockGas)
-	res, err := core.ApplyMessage(evm, msg, gp)
-	out := &result{st: st, tr: tr}
-	if err != nil {
-		if os.Getenv("C26_DEBUG") != "" {
-			fmt.Fprintln(os.Stderr, "invalid:", err)
-		}
-		return out
-	}
-	st.Finalise(rules)
-	out.valid, out.ok, out.gasUsed = true, !res.Failed(), res.UsedGas
-	return out
-}
-
-func firstIndex(xs []int64, x int64) int {
-	for i, y := range xs {
-		if y == x {
-			return i
-		}
-	}
-	return -1
-}
-
-// post dumps the accounts the specification is asked about.
-func post(r *result, w *me.World, tx *Tx) ([]tl.M, bool) {
-	in := r.tr.In
-	addrs := map[int64]common.Address{}
-	for _, a := range w.Accounts {
-		addrs[int64(a.Addr)] = me.Addr(a.Addr)
-	}
-	addrs[tx.Coinbase] = me.Addr(uint64(tx.Coinbase))
-	if !tx.IsCreate {
-		addrs[tx.To] = me.Addr(uint64(tx.To))
-	}
-	// created contracts / callees / beneficiaries seen by the tracer
-	for k := range r.tr.Addrs {
-		if _, ok := addrs[k]; !ok {
-			if a, ok := in.RealAddr(k); ok {
-				addrs[k] = a
-			}
-		}
-	}
-	keys := make([]int64, 0, len(addrs))
-	for k := range addrs {
-		keys = append(keys, k)
-	}
-	sort.Slice(keys, func(i, j int) bool { return keys[i] < keys[j] })
-	out := []tl.M{}
-	fits := true
-	for _, k := range keys {
-		a := addrs[k]
-		bal := r.st.GetBalance(a)
-		if !bal.IsUint64() || bal.Uint64() >= 1<<31 {
-			fits = false
-			continue
-		}
-		slots := map[int64]bool{}
-		if pa := w.Get(uint64(k)); pa != nil && k >= 0 {
-			for s := range pa.Storage {
-				slots[int64(s)] = true
-			}
-		}
-		for s := range r.tr.Slots[k] {
-			slots[s] = true
-		}
-		sk := make([]int64, 0, len(slots))
-		for s := range slots {
-			sk = append(sk, s)
-		}
-		sort.Slice(sk, func(i, j int) bool { return sk[i] < sk[j] })
-		stor := [][]int64{}
-		for _, s := range sk {
-			key, ok := in.RealWord(s)
-			if !ok {
-				continue
-			}
-			v := r.st.GetState(a, key)
-			stor = append(stor, []int64{s, in.Word(new(uint256.Int).SetBytes(v[:]))})
-		}
-		out = append(out, tl.M{"addr": k, "bal": bal.Uint64(), "nonce": r.st.GetNonce(a), "clen": len(r.st.GetCode(a)), "stor": stor})
-	}
-	return out, fits
-}
-
-func logsOf(r *result) []tl.M {
-	out := []tl.M{}
-	for _, l := range r.st.Logs() {
-		tops := []int64{}
-		for _, t := range l.Topics {
-			tops = append(tops, r.tr.In.Word(new(uint256.Int).SetBytes(t[:])))
-		}
-		out = append(out, tl.M{"addr": r.tr.In.Addr(l.Address), "topics": tops, "data": r.tr.In.Words(l.Data), "dlen": len(l.Data)})
-	}
-	return out
-}
-
-// ---------------------------------------------------------------- scenario generation
-
-type scenario struct {
-	w    *me.World
-	tx   *Tx
-	data []byte
-	kind string
-}
-
-func genScenario(r *rand.Rand) *scenario {
-	w := &me.World{}
-	fork := me.Forks[r.Intn(3)]
-	rich := r.Intn(3) != 0
-	leaf := me.Opts{MaxDepth: 1, Stmts: 4, FailBias: 3, AllowOpaque: rich, AllowBig: r.Intn(2) == 0, AllowGas: r.Intn(2) == 0,
-		AllowDestruct: r.Intn(3) == 0, IgnoreCallFail: true}
-	mid := leaf
-	mid.Targets = []uint64{me.AddrC3, me.AddrC1}
-	top := me.Opts{MaxDepth: 2, Stmts: 6, FailBias: 1, Targets: []uint64{me.AddrC2, me.AddrC3}, AllowOpaque: rich, AllowBig: r.Intn(2) == 0,
-		AllowGas: r.Intn(2) == 0, AllowCreate: r.Intn(3) == 0, AllowDestruct: r.Intn(4) == 0, IgnoreCallFail: true}
-	code := func(o me.Opts) []byte {
-		if r.Intn(12) == 0 {
-			return me.RawProgram(r, 10+r.Intn(40))
-		}
-		return me.Generate(r, o).Code
-	}
-	mkStore := func() map[uint64]uint64 {
-		m := map[uint64]uint64{}
-		for s := uint64(0); s < 3; s++ {
-			if r.Intn(2) == 0 {
-				m[s] = uint64(1 + r.Intn(2))
-			}
-		}
-		return m
-	}
-	w.Add(&me.Account{Addr: me.AddrC1, Balance: uint64(r.Intn(3000)), Nonce: 1, Code: code(top), Storage: mkStore()})
-	w.Add(&me.Account{Addr: me.AddrC2, Balance: uint64(r.Intn(3000)), Nonce: 1, Code: code(mid), Storage: mkStore()})
-	w.Add(&me.Account{Addr: me.AddrC3, Balance: uint64(r.Intn(3000)), Nonce: 1, Code: code(leaf), Storage: mkStore()})
-	w.Add(&me.Account{Addr: me.AddrEOA2, Balance: uint64(r.Intn(10)), Nonce: uint64(r.Intn(2))})
-	if r.Intn(3) == 0 {
-		w.Add(&me.Account{Addr: me.AddrCoinbase, Balance: uint64(r.Intn(10))})
-	}
-	tx := &Tx{Fork: fork, From: me.AddrSender, Coinbase: me.AddrCoinbase, BlockGas: 30_000_000, AlAddrs: []int64{}, AlKeys: [][]int64{}, Data: []int{}, DataW: []int64{}}
-	tx.BaseFee = uint64(r.Intn(8))
-	tx.Tip = uint64(r.Intn(4))
-	tx.FeeCap = tx.BaseFee + tx.Tip + uint64(r.Intn(3))
-	if r.Intn(4) == 0 {
-		tx.FeeCap = tx.BaseFee + uint64(r.Intn(3)) // price capped by the fee cap
-		tx.Tip = min(tx.Tip, tx.FeeCap)
-	}
-	tx.Price = min(tx.FeeCap, tx.BaseFee+tx.Tip)
-	tx.Nonce = uint64(r.Intn(3))
-	if r.Intn(3) == 0 {
-		tx.Value = uint64(r.Intn(2000))
-	}
-	sc := &scenario{w: w, tx: tx}
-	switch k := r.Intn(20); {
-	case k < 1:
-		sc.kind = "transfer"
-		tx.To = []int64{me.AddrEOA2, me.AddrEmpty, 4, 2}[r.Intn(4)]
-	case k < 4:
-		sc.kind = "create"
-		tx.IsCreate = true
-		rt := me.Generate(r, leaf).Code
-		if r.Intn(3) == 0 {
-			sc.data = me.InitCode(me.Generate(r, top).Code, rt, true)
-		} else {
-			sc.data = me.InitCode(nil, rt, false)
-		}
-	default:
-		sc.kind = "call"
-		tx.To = me.AddrC1
-		nw := r.Intn(4)
-		for i := 0; i < nw; i++ {
-			word := make([]byte, 32)
-			word[31] = byte(r.Intn(4))
-			if r.Intn(6) == 0 {
-				word[r.Intn(32)] = byte(r.Intn(256))
-			}
-			sc.data = append(sc.data, word...)
-		}
-		if r.Intn(6) == 0 {
-			sc.data = append(sc.data, byte(r.Intn(3)), 7)
-		}
-	}
-	tx.Data = me.Bytes(sc.data)
-	// access list
-	if r.Intn(3) == 0 {
-		for _, a := range []int64{me.AddrC1, me.AddrC2, me.AddrC3, me.AddrEOA2, me.AddrEmpty} {
-			if r.Intn(3) == 0 {
-				tx.AlAddrs = append(tx.AlAddrs, a)
-				for s := int64(0); s < 3; s++ {
-					if r.Intn(3) == 0 {
-						tx.AlKeys = append(tx.AlKeys, []int64{a, s})
-					}
-				}
-			}
-		}
-	}
-	w.Add(&me.Account{Addr: me.AddrSender, Balance: 900_000_000 + uint64(r.Intn(100_000_000)), Nonce: tx.Nonce})
-	// occasionally an invalid transaction
-	switch r.Intn(40) {
-	case 0:
-		tx.Nonce++
-	case 1:
-		w.Get(me.AddrSender).Balance = uint64(r.Intn(50000))
-	case 2:
-		tx.FeeCap = tx.BaseFee - min(tx.BaseFee, 1)
-		tx.Tip = min(tx.Tip, tx.FeeCap)
-		tx.Price = tx.FeeCap
-	case 3:
-		tx.BlockGas = 100_000
-	}
-	return sc
-}
-
-// chooseGas picks the gas limit: generous, or somewhere below what a generous run used
-// (so that execution runs out of gas at an arbitrary point).
-func chooseGas(r *rand.Rand, sc *scenario) {
-	sc.tx.Gas = 1_000_000 + uint64(r.Intn(2_000_000))
-	if r.Intn(5) < 2 {
-		return
-	}
-	probe := execute(sc.w, sc.tx, sc.data, false)
-	if !probe.valid {
-		return
-	}
-	used := probe.gasUsed
-	switch r.Intn(4) {
-	case 0:
-		sc.tx.Gas = used + uint64(r.Intn(3000))
-	case 1:
-		sc.tx.Gas = 20000 + uint64(r.Int63n(int64(used)))
-	default:
-		lo := uint64(21000)
-		if used > lo {
-			sc.tx.Gas = lo + uint64(r.Int63n(int64(used-lo+1)))
-		} else {
-			sc.tx.Gas = used
-		}
-	}
-	if sc.tx.Fork == "osaka" && r.Intn(60) == 0 {
-		sc.tx.Gas = 16_777_217 + uint64(r.Intn(3)) // above the EIP-7825 cap: invalid
-	}
-}
 
 func runRecord(path string, seed int64, n int, maxOps int, sum *tl.Summary) {
 	r := tl.Rand(seed)
@@ -361,31 +24,31 @@ func runRecord(path string, seed int64, n int, maxOps int, sum *tl.Summary) {
 	shapes := map[string]bool{}
 	opsSeen := map[int]bool{}
 	for i := 0; i < n; i++ {
-		sc := genScenario(r)
-		chooseGas(r, sc)
-		res := execute(sc.w, sc.tx, sc.data, true)
+		sc := me.GenScenario(r)
+		me.ChooseGas(r, sc)
+		res := me.Execute(sc.W, sc.Tx, sc.Data, true)
 		sum.Evaluations++
-		if res.tr.Unmodeled != "" {
+		if res.Tr.Unmodeled != "" {
 			sum.Count("skipped-unmodeled")
 			continue
 		}
-		if res.valid && sc.tx.Gas > 4_200_000 {
+		if res.Valid && sc.Tx.Gas > 4_200_000 {
 			sum.Count("skipped-gas")
 			continue
 		}
-		if res.tr.NOps > maxOps {
+		if res.Tr.NOps > maxOps {
 			sum.Count("skipped-long")
 			continue
 		}
-		sc.tx.DataW = res.tr.In.Words(sc.data)
-		p, fits := post(res, sc.w, sc.tx)
+		sc.Tx.DataW = res.Tr.In.Words(sc.Data)
+		p, fits := me.Post(res, sc.W, sc.Tx)
 		if !fits {
 			sum.Count("skipped-bigbalance")
 			continue
 		}
-		tr.Emit(tl.M{"op": "tx", "tx": sc.tx, "accts": acctsOf(sc.w)})
-		shape := fmt.Sprint(sc.kind, sc.tx.Fork, res.valid, res.ok)
-		for _, e := range res.tr.Events {
+		tr.Emit(tl.M{"op": "tx", "tx": sc.Tx, "accts": me.AcctsOf(sc.W)})
+		shape := fmt.Sprint(sc.Kind, sc.Tx.Fork, res.Valid, res.Ok)
+		for _, e := range res.Tr.Events {
 			tr.Emit(e)
 			if e["op"] == "opc" {
 				opsSeen[e["opc"].(int)] = true
@@ -397,25 +60,25 @@ func runRecord(path string, seed int64, n int, maxOps int, sum *tl.Summary) {
 				sum.Count("frames-" + e["typ"].(string))
 			}
 		}
-		if !res.valid {
+		if !res.Valid {
 			tr.Emit(tl.M{"op": "txend", "valid": false, "ok": false, "gasUsed": 0, "post": []tl.M{}, "logs": []tl.M{}})
 			sum.Count("tx-invalid")
 		} else {
-			tr.Emit(tl.M{"op": "txend", "valid": true, "ok": res.ok, "gasUsed": res.gasUsed, "post": p, "logs": logsOf(res)})
-			if res.ok {
+			tr.Emit(tl.M{"op": "txend", "valid": true, "ok": res.Ok, "gasUsed": res.GasUsed, "post": p, "logs": me.LogsOf(res)})
+			if res.Ok {
 				sum.Count("tx-ok")
 			} else {
 				sum.Count("tx-failed")
 			}
 		}
-		sum.Count("kind-" + sc.kind)
-		sum.Count("fork-" + sc.tx.Fork)
-		sum.Steps += res.tr.NOps
+		sum.Count("kind-" + sc.Kind)
+		sum.Count("fork-" + sc.Tx.Fork)
+		sum.Steps += res.Tr.NOps
 		if !shapes[shape] {
 			shapes[shape] = true
 		}
 		if sum.Traces < 2 {
-			sum.Sample(tl.M{"kind": sc.kind, "fork": sc.tx.Fork, "gas": sc.tx.Gas, "ops": res.tr.NOps, "ok": res.ok, "gasUsed": res.gasUsed})
+			sum.Sample(tl.M{"kind": sc.Kind, "fork": sc.Tx.Fork, "gas": sc.Tx.Gas, "ops": res.Tr.NOps, "ok": res.Ok, "gasUsed": res.GasUsed})
 		}
 		sum.Traces++
 	}
